@@ -351,10 +351,10 @@ clear_ret:
 
         ;; Clear first 48 bytes (SHA-384) or 64 bytes (SHA-512) of outer_block
 %if (SHA_X_DIGEST_SIZE == 384)
-        vmovdqu64 [lane_data + _outer_block], ymm0
-        vmovdqa64 [lane_data + _outer_block + 32], xmm0
+        vmovdqu64 [lane_data + _outer_block_sha512], ymm0
+        vmovdqa64 [lane_data + _outer_block_sha512 + 32], xmm0
 %else
-        vmovdqu64 [lane_data + _outer_block], zmm0
+        vmovdqu64 [lane_data + _outer_block_sha512], zmm0
 %endif
 
 APPEND(skip_clear_,I):
